@@ -14,6 +14,7 @@ func init() { register("C01", checkC01) }
 func checkC01(c *Ctx, r *Report, tier string) {
 	round5(c, r, "C01")
 	round6(c, r, "C01")
+	round7(c, r, "C01")
 	x := newIdx(c)
 	r.Rule("C01.R1", "tombstone filter on every candidate flow: every use of the key of a `range` over an edge set is the liveness test itself or is dominated by the live successor of such a test on the same key (exception: a key collected only to be unlinked/re-pruned)", 4)
 	r.Rule("C01.R2", "entry point hand-over: on the branch where the loaded entry point equals the removed vertex every path to return passes a CAS/Store into the entry point", 1)
